@@ -81,8 +81,10 @@ pub fn run(args: &Args) -> Report {
                 return;
             }
         };
-        let mut seen: HashMap<Felt, String> = HashMap::new();
-        seen.insert(h0, "original".into());
+        // digest -> (label, canonical serialisation of (input, friendly count)): a collision needs two
+        // DIFFERENT inputs (deleting either of two identical neighbouring segments gives equal inputs)
+        let mut seen: HashMap<Felt, (String, String)> = HashMap::new();
+        seen.insert(h0, ("original".into(), format!("{}|{}", v0, hex(&nf))));
         rep.case(&format!("{name}|original"), true);
         // equal inputs have equal digests (deep copy through serde)
         let copy: PublicInput = serde_json::from_str(&serde_json::to_string(&pi0).unwrap()).unwrap();
@@ -116,14 +118,19 @@ pub fn run(args: &Args) -> Report {
                 return;
             }
             rep.inc(&format!("changed.{class}"));
-            if let Some(prev) = seen.get(&h) {
+            let canon = format!("{}|{}", serde_json::to_value(&pi).unwrap(), hex(&nfv));
+            if let Some((prev, prev_canon)) = seen.get(&h) {
+                if *prev_canon == canon {
+                    rep.inc("variants_equal_to_an_earlier_variant");
+                    return;
+                }
                 rep.violation(
                     &format!("C13|collision|{class}"),
                     &format!("two different public inputs have the same digest: [{label}] and [{prev}]"),
                     json!({"seed": name, "n_verifier_friendly_commitment_layers": hex(&nf), "variant": label, "collides_with": prev, "public_input": v}),
                 );
             } else {
-                seen.insert(h, label);
+                seen.insert(h, (label, canon));
             }
         };
         // every single scalar field
